@@ -23,9 +23,12 @@ type Program struct {
 	funcs  map[string]*ssa.Function // key: pkgpath.relname
 	repo   string
 
-	guarantees map[string]Clause       // heap name -> two-state guarantee
-	ranges     map[string]Clause       // heap name -> assumed range of the stored value
-	monitors   map[string]*MonitorDecl // struct type key -> monitor
+	modCache   map[*ssa.Function]map[string]bool
+	modWhy     map[string]bool
+	aliases    map[string]map[string]string // package path -> import alias -> imported path
+	guarantees map[string]Clause            // heap name -> two-state guarantee
+	ranges     map[string]Clause            // heap name -> assumed range of the stored value
+	monitors   map[string]*MonitorDecl      // struct type key -> monitor
 }
 
 const modPath = "github.com/kubewharf/kubebrain"
@@ -109,6 +112,20 @@ func loadProgram(repo string, patterns []string, specDir string) (*Program, erro
 	}
 	if err := p.cs.resolveSameAs(); err != nil {
 		return nil, err
+	}
+	p.modCache = map[*ssa.Function]map[string]bool{}
+	p.modWhy = map[string]bool{}
+	p.aliases = map[string]map[string]string{}
+	for _, pk := range pkgs {
+		m := map[string]string{}
+		for _, f := range pk.Syntax {
+			for _, im := range f.Imports {
+				if im.Name != nil {
+					m[im.Name.Name] = strings.Trim(im.Path.Value, "\"")
+				}
+			}
+		}
+		p.aliases[pk.PkgPath] = m
 	}
 	p.guarantees = map[string]Clause{}
 	p.monitors = map[string]*MonitorDecl{}
